@@ -82,6 +82,20 @@ if __name__ == "__main__":
             for name, a in variants:
                 texts.append((str(len(texts)), regcheck.hist_harness(s, a)))
                 meta.append((len(bases) - 1, name))
+    # tensor products in both operand orders and with either operand the wider one (0..5 (6) qubits each side)
+    wmax = 5 if tier == "quick" else 6
+    for a in range(0, wmax + 1):
+        for b in range(0, wmax + 1):
+            for kind in (("tensorr", "tensorl") if tier == "quick" else ("tensorr", "tensorl", "mulassign")):
+                if tier == "quick" and (a + b) % 2 == (0 if kind == "tensorr" else 1) and a != b and abs(a - b) != 1:
+                    continue
+                s = rng.randrange(1 << 30)
+                acts = [("raw", a, gen.random_state(rng, a)), (kind, b, gen.random_state(rng, b)), ("dump",), ("probs",)]
+                bases.append((s, acts, a + b))
+                variants = [("single", acts)] + [("k=%d" % k, with_threads(acts, k)) for k in (ks[0], ks[-1])]
+                for name, av in variants:
+                    texts.append((str(len(texts)), regcheck.hist_harness(s, av)))
+                    meta.append((len(bases) - 1, name))
     # refusals
     refus = [(0, "t none"), (CORES + 1, "t none"), ((1 << 64) - 1, "t none"), (1, "t ok"), (CORES, "t ok")]
     for k, _ in refus:
